@@ -63,6 +63,8 @@ impl Write for WritableFile {
         self.content.flush()?;
         let mut content = self.content.get_ref().clone();
         swap(&mut content, self.content.get_mut());
+        #[cfg(feature = "verif-hooks")]
+        crate::verif_hooks::yield_point("mem.w.flush");
         let mut handle = self.fs.write().unwrap();
         let previous_file = handle.files.get(&self.destination);
         match previous_file {
@@ -157,6 +159,8 @@ impl Seek for ReadableFile {
 impl FileSystem for MemoryFS {
     fn read_dir(&self, path: &str) -> VfsResult<Box<dyn Iterator<Item = String> + Send>> {
         let prefix = format!("{}/", path);
+        #[cfg(feature = "verif-hooks")]
+        crate::verif_hooks::yield_point("mem.r.read_dir");
         let handle = self.handle.read().unwrap();
         let mut found_directory = false;
         #[allow(clippy::needless_collect)] // need collect to satisfy lifetime requirements
@@ -184,6 +188,8 @@ impl FileSystem for MemoryFS {
     }
 
     fn create_dir(&self, path: &str) -> VfsResult<()> {
+        #[cfg(feature = "verif-hooks")]
+        crate::verif_hooks::yield_point("mem.w.create_dir");
         let map = &mut self.handle.write().unwrap().files;
         ensure_has_parent(map, path)?;
         let entry = map.entry(path.to_string());
@@ -213,6 +219,8 @@ impl FileSystem for MemoryFS {
     fn open_file(&self, path: &str) -> VfsResult<Box<dyn SeekAndRead + Send>> {
         self.set_access_time(path, SystemTime::now())?;
 
+        #[cfg(feature = "verif-hooks")]
+        crate::verif_hooks::yield_point("mem.r.open_file");
         let handle = self.handle.read().unwrap();
         let file = handle.files.get(path).ok_or(VfsErrorKind::FileNotFound)?;
         ensure_file(file)?;
@@ -225,6 +233,8 @@ impl FileSystem for MemoryFS {
     fn create_file(&self, path: &str) -> VfsResult<Box<dyn SeekAndWrite + Send>> {
         let content = Arc::new(Vec::<u8>::new());
         {
+            #[cfg(feature = "verif-hooks")]
+            crate::verif_hooks::yield_point("mem.w.create_file");
             let mut handle = self.handle.write().unwrap();
             ensure_has_parent(&handle.files, path)?;
             if let Some(existing) = handle.files.get(path) {
@@ -250,6 +260,8 @@ impl FileSystem for MemoryFS {
     }
 
     fn append_file(&self, path: &str) -> VfsResult<Box<dyn SeekAndWrite + Send>> {
+        #[cfg(feature = "verif-hooks")]
+        crate::verif_hooks::yield_point("mem.w.append_file");
         let handle = self.handle.write().unwrap();
         let file = handle.files.get(path).ok_or(VfsErrorKind::FileNotFound)?;
         ensure_file(file)?;
@@ -264,6 +276,8 @@ impl FileSystem for MemoryFS {
     }
 
     fn metadata(&self, path: &str) -> VfsResult<VfsMetadata> {
+        #[cfg(feature = "verif-hooks")]
+        crate::verif_hooks::yield_point("mem.r.metadata");
         let guard = self.handle.read().unwrap();
         let files = &guard.files;
         let file = files.get(path).ok_or(VfsErrorKind::FileNotFound)?;
@@ -277,6 +291,8 @@ impl FileSystem for MemoryFS {
     }
 
     fn set_creation_time(&self, path: &str, time: SystemTime) -> VfsResult<()> {
+        #[cfg(feature = "verif-hooks")]
+        crate::verif_hooks::yield_point("mem.w.set_creation_time");
         let mut guard = self.handle.write().unwrap();
         let files = &mut guard.files;
         let file = files.get_mut(path).ok_or(VfsErrorKind::FileNotFound)?;
@@ -287,6 +303,8 @@ impl FileSystem for MemoryFS {
     }
 
     fn set_modification_time(&self, path: &str, time: SystemTime) -> VfsResult<()> {
+        #[cfg(feature = "verif-hooks")]
+        crate::verif_hooks::yield_point("mem.w.set_modification_time");
         let mut guard = self.handle.write().unwrap();
         let files = &mut guard.files;
         let file = files.get_mut(path).ok_or(VfsErrorKind::FileNotFound)?;
@@ -297,6 +315,8 @@ impl FileSystem for MemoryFS {
     }
 
     fn set_access_time(&self, path: &str, time: SystemTime) -> VfsResult<()> {
+        #[cfg(feature = "verif-hooks")]
+        crate::verif_hooks::yield_point("mem.w.set_access_time");
         let mut guard = self.handle.write().unwrap();
         let files = &mut guard.files;
         let file = files.get_mut(path).ok_or(VfsErrorKind::FileNotFound)?;
@@ -307,10 +327,14 @@ impl FileSystem for MemoryFS {
     }
 
     fn exists(&self, path: &str) -> VfsResult<bool> {
+        #[cfg(feature = "verif-hooks")]
+        crate::verif_hooks::yield_point("mem.r.exists");
         Ok(self.handle.read().unwrap().files.contains_key(path))
     }
 
     fn remove_file(&self, path: &str) -> VfsResult<()> {
+        #[cfg(feature = "verif-hooks")]
+        crate::verif_hooks::yield_point("mem.w.remove_file");
         let mut handle = self.handle.write().unwrap();
         let file = handle.files.get(path).ok_or(VfsErrorKind::FileNotFound)?;
         ensure_file(file)?;
@@ -319,6 +343,8 @@ impl FileSystem for MemoryFS {
     }
 
     fn remove_dir(&self, path: &str) -> VfsResult<()> {
+        #[cfg(feature = "verif-hooks")]
+        crate::verif_hooks::yield_point("mem.w.remove_dir");
         let mut handle = self.handle.write().unwrap();
         let file = handle.files.get(path).ok_or(VfsErrorKind::FileNotFound)?;
         ensure_dir(file)?;
